@@ -66,6 +66,10 @@ func buildSQLGrammar() *sqlGrammar {
 	addPay("stacked", ";~drop~table~users", ";~select~1", ";~insert~into~t~values(1)", ";~update~t~set~a=1", ";~delete~from~t", ";~exec~xp_cmdshell('dir')", ";~shutdown", ";~declare~@a~int", ";~waitfor~delay~'0:0:5'", ";~if~1=1~select~1", ";~select~pg_sleep(5)", ";~create~table~t(a~int)", ";~alter~table~t~add~a~int", ";~truncate~table~t", ";~exec~('x')", ";~select~*~from~t", ";~begin~declare~@a~int~end", ";~set~@a=1", ";~call~p()", ";~grant~all~on~*.*~to~x", ";~if~exists(select~1)~waitfor~delay~'0:0:5'", ";~if~not~exists(select~1)~select~1", ";~if~exists~(select~*~from~t)~drop~table~t")
 	addPay("function", "~and~sleep(5)", "~or~sleep(5)", "~or~benchmark(1000000,md5(1))", "~and~extractvalue(1,concat(0x7e,version()))", "~or~pg_sleep(5)", "~and~updatexml(1,concat(0x7e,user()),1)", "~and~(select~1~from~(select~sleep(5))a)", "~or~ascii(substring(user(),1,1))>64", "~and~length(database())>1", "~or~char(65)=char(65)", "~and~load_file('/etc/passwd')", "~procedure~analyse()", "~into~outfile~'/tmp/x'", "~or~exists(select~1)", "~and~1=convert(int,@@version)", "~or~1=cast(1~as~int)", "~and~if(1=1,sleep(5),0)", "~or~(select~count(*)~from~t)>0", "~and~substr(version(),1,1)=5", "~and~ord(mid(user(),1,1))>64", "~or~row(1,1)>(select~1)", "~and~exp(~(select~1))", "~and~md5(1)=md5(1)", "~or~utl_inaddr.get_host_name('x')=1", "~and~dbms_pipe.receive_message('a',5)=1", "~and~case~when~1=1~then~1~else~0~end=1", "~or~coalesce(null,1)=1", "~and~1=(select~1)", "~and~hex(1)=31", "~or~isnull(null)", "~and~user_lock.sleep(5)", "~or~dbms_lock.sleep(5)", "~and~1=user_lock.sleep(5)", "~and~sys.dbms_lock.sleep(5)", "~or~xmltype(1)=1", "~and~ctxsys.drithsx.sn(1,user)=1")
 	addPay("combined", "~or~1=1;~waitfor~delay~'0:0:5'", "~or~1=1~order~by~1", "~or~1=1~group~by~1", "~and~1=1~union~select~1", "~or~1=1;~drop~table~users", "~or~1=1~limit~1", "~or~1=1~and~sleep(5)", "~union~select~1;~drop~table~t", "~union~select~1~order~by~1", "~union~select~1~group~by~1", "~or~1=1~procedure~analyse()", "~or~1=1~into~outfile~'x'", "~and~1=1;~select~pg_sleep(5)", "~or~1=1~having~1=1", "~or~'a'='a'~order~by~1", "~or~1=1;~exec~xp_cmdshell('dir')", ";~select~1~order~by~1", ";~select~1~group~by~1", "~union~all~select~1,2~from~t~order~by~1", "~or~1=1~for~update", "~or~1=1~and~2=2~order~by~1", "~or~1=1;~if~1=1~waitfor~delay~'0:0:5'")
+	// boolean chains and the arithmetic / unary / parenthesis noise that folding must collapse
+	addPay("folding_noise", "~or~1=1~or~((1=1))", "~or~2>1~or~((1=1))", "~or~1<2~and~((1=1))", "~or~1=1~or~(2=2)", "~or~(1=1)~or~(2=2)", "~or~((1=1))", "~and~((1=1))~or~1=1", "~or~1=1~or~2=2~or~3=3", "~or~(1=1~and~(2=2))", "~or~((1))=((1))",
+		"~or~1=1~or~((1=1))~or~2=2", "~or~not~((1=2))", "~or~1=(1)~or~((2))=2", "~or~1=+1", "~or~-1=-1", "~or~1=1*1", "~or~(1+1)=2", "~or~1+1=2", "~or~~1=~1", "~or~1=1-0", "~or~!1=!1", "~or~+1=+1~or~-(1)=-(1)", "~or~1=((((1))))", "~or~((((1))))=1", "~and~1=1~and~((2=2))~and~3=3",
+		"~or~1~or~((1))", "~or~'a'='a'~or~(('a'='a'))", "~or~1=1~and~(2=2~or~(3=3))")
 	addPay("comment_truncation", "--", "--~", "#", "/*", "--~foo", ";--", "/*foo*/", ";#", "--+", "~or~1--")
 	g.Tails = []string{"", "--", sp("--~"), "#", "/*", ";", sp(";--~"), sp("~--~-"), sp("~or~'1'='1"), sp("~and~'a'='a"), sp("~or~\"1\"=\"1"), "'", "\"", ")", sp("--~x"), "#x", ";--", "/*x"}
 	g.Seps = []string{" ", "\t", "\n", "\r", "\v", "\f", "\xa0", "\x00", "/**/", "/*x*/", "  ", " \t\n", "/**/ "}
